@@ -22,6 +22,7 @@ behaviour the property demands (no sharing), so any other alias - or a listed on
 """
 from __future__ import annotations
 
+import enum
 import itertools
 import json
 import os
@@ -107,7 +108,7 @@ class Walk:
         return True
 
     def visit(self, obj, parent=None, hint=None):
-        if isinstance(obj, IMMUT) or isinstance(obj, type):
+        if isinstance(obj, IMMUT) or isinstance(obj, (type, enum.Enum)):
             return
         if isinstance(obj, tuple):
             for x in obj:
@@ -240,7 +241,8 @@ def snap_basis(b, uu):
 def snap(x, uu=None):
     uu = uu or Interner()
     if isinstance(x, QuantumCircuit):
-        return ["qc", x.num_qubits, x.num_clbits, [[r.name, r.size] for r in x.qregs], [[r.name, r.size] for r in x.cregs],
+        # quantum register NAMES are not compared: QuantumRegister(bits=...) draws them from a process-wide counter
+        return ["qc", x.num_qubits, x.num_clbits, [r.size for r in x.qregs], [[r.name, r.size] for r in x.cregs],
                 [[snap_op(i.operation, uu), [x.find_bit(q).index for q in i.qubits], [x.find_bit(c).index for c in i.clbits]]
                  for i in x.data]]
     if isinstance(x, QPDBasis):
@@ -347,6 +349,8 @@ class HeapBuilder:
         if id(o) in self.addr:
             return self.addr[id(o)]
         self.keep.append(o)
+        if o.name == "qpd_measure":
+            return self._alloc(id(o), "OOp KMeas 0 None None")
         return self._alloc(id(o), "OOp KPy 0 None None")
 
     def lst(self, l):
@@ -394,7 +398,7 @@ class HeapBuilder:
                 ops.append(self._alloc(("native", id(qc), k), "OOp KNative 0 None None"))
             else:
                 ops.append(self.op(o))
-        return self._alloc(id(qc), f"OCirc {coq(ops)}")
+        return self._alloc(id(qc), f"OCirc {coq(ops)} {len(qc.cregs)}")
 
     def pauli(self, pl):
         if id(pl) in self.addr:
@@ -418,64 +422,90 @@ class HeapBuilder:
 
 
 # ----------------------------------------------------------------------------------------------
-# generators
+# generators: a case is a JSON description from which the Python inputs are (re)built exactly
 # ----------------------------------------------------------------------------------------------
 LABEL_POOL = ["A", "B", "C", 0, 1, "foo", (1, 2)]
-PY_GATES = [lambda r: RZXGate(float(r.integers(1, 8)) / 8.0), lambda r: RZZGate(float(r.integers(1, 8)) / 8.0)]
-CUT_SRC = [lambda r: CXGate(), lambda r: RZZGate(float(r.integers(1, 8)) / 8.0), lambda r: SwapGate(), lambda r: CZGate(),
-           lambda r: RZXGate(float(r.integers(1, 8)) / 8.0)]
-SMALL_SRC = CUT_SRC[:2] + [CUT_SRC[3]]
+GATE_CLS = {"cx": CXGate, "rzz": RZZGate, "rzx": RZXGate, "swap": SwapGate, "cz": CZGate, "ryy": RYYGate, "crx": CRXGate}
+CUTTABLE = set(GATE_CLS)
+BIG_SRC = ["swap", "rzx", "ryy", "crx"]       # bases with non-singleton gate objects (and 58 maps for swap / rzx)
+SMALL_SRC = ["cx", "rzz", "cz"]               # 6-map bases of singleton gates only
 
 
-def rand_circuit(rng, nq, ngates, p_pre=0.3, p_py=0.2, p_cw=0.0, small_bases=False, barriers=True, two_q_only_adjacent=False):
-    """2-4 qubits; cx / rzz / swap made natively, some gates appended as Python objects (rzx, rzz),
-    optional pre-placed TwoQubitQPDGate instances (sometimes two gates sharing one basis object), CutWire markers."""
-    qc = QuantumCircuit(nq)
-    shared_basis = None
+def _angle(rng):
+    return float(rng.integers(1, 8)) / 8.0
+
+
+def _params_for(name, rng):
+    return [_angle(rng)] if name in ("rzz", "rzx", "ryy", "crx") else []
+
+
+def rand_desc(rng, nq, ngates, p_pre=0.3, p_py=0.2, p_cw=0.0, barriers=True, srcs=None):
+    """2-4 qubits; cx / rzz / swap made natively, some gates appended as Python objects, optional pre-placed
+    TwoQubitQPDGate instances (sometimes two gates sharing ONE basis object), CutWire markers, a barrier."""
+    srcs = srcs or (SMALL_SRC + BIG_SRC)
+    ops = []
+    last_pre = None
     for _ in range(ngates):
         r = rng.random()
-        if r < 0.25:
-            q = int(rng.integers(0, nq))
-            [qc.h, qc.x, qc.s, lambda q: qc.rx(0.25, q)][int(rng.integers(0, 4))](q)
-            continue
-        if nq < 2:
+        if r < 0.25 or nq < 2:
+            ops.append(dict(g=["h", "x", "s", "rx"][int(rng.integers(0, 4))], q=[int(rng.integers(0, nq))]))
+            if ops[-1]["g"] == "rx":
+                ops[-1]["p"] = [0.25]
             continue
         a, b = (int(x) for x in rng.permutation(nq)[:2])
         r = rng.random()
         if r < p_pre:
-            src = (SMALL_SRC if small_bases else CUT_SRC)
-            g = TwoQubitQPDGate.from_instruction(src[int(rng.integers(0, len(src)))](rng))
-            if shared_basis is not None and rng.random() < 0.3:
-                g = TwoQubitQPDGate(shared_basis, label="cut_again")
-            shared_basis = g.basis
-            qc.append(g, [a, b])
-        elif r < p_pre + p_py:
-            qc.append(PY_GATES[int(rng.integers(0, len(PY_GATES)))](rng), [a, b])
-        else:
-            k = int(rng.integers(0, 3 if not small_bases else 2))
-            if k == 0:
-                qc.cx(a, b)
-            elif k == 1:
-                qc.rzz(float(rng.integers(1, 8)) / 8.0, a, b)
+            if last_pre is not None and rng.random() < 0.3:
+                ops.append(dict(g="qpd_2q", q=[a, b], share=last_pre))
             else:
-                qc.swap(a, b)
+                name = srcs[int(rng.integers(0, len(srcs)))]
+                ops.append(dict(g="qpd_2q", q=[a, b], src=name, p=_params_for(name, rng)))
+                last_pre = len(ops) - 1
+        elif r < p_pre + p_py:
+            name = ["rzx", "rzz"][int(rng.integers(0, 2))]
+            ops.append(dict(g=name, q=[a, b], p=_params_for(name, rng), py=True))
+        else:
+            name = ["cx", "rzz", "swap"][int(rng.integers(0, 3))]
+            ops.append(dict(g=name, q=[a, b], p=_params_for(name, rng)))
         if p_cw and rng.random() < p_cw:
-            qc.append(CutWire(), [int(rng.integers(0, nq))])
-    if barriers and rng.random() < 0.2 and nq >= 2:
-        qc.barrier()
+            ops.append(dict(g="cut_wire", q=[int(rng.integers(0, nq))]))
+    if barriers and nq >= 2 and rng.random() < 0.2:
+        ops.append(dict(g="barrier", q=list(range(nq))))
+    return dict(nq=nq, ops=ops)
+
+
+def build_circuit(d):
+    qc = QuantumCircuit(d["nq"])
+    made = {}
+    for k, o in enumerate(d["ops"]):
+        g, q, p = o["g"], o["q"], o.get("p", [])
+        if g == "qpd_2q":
+            if "share" in o:
+                gate = TwoQubitQPDGate(made[o["share"]].basis, label="cut_again")
+            else:
+                gate = TwoQubitQPDGate.from_instruction(GATE_CLS[o["src"]](*p))
+            made[k] = gate
+            qc.append(gate, q)
+        elif g == "cut_wire":
+            qc.append(CutWire(), q)
+        elif g == "barrier":
+            qc.barrier(*q)
+        elif o.get("py"):
+            qc.append(GATE_CLS[g](*p), q)          # keeps the Python gate object
+        else:
+            getattr(qc, g)(*p, *q)                 # made natively by the circuit method
     return qc
 
 
 def rand_labels(rng, nq):
     nl = int(rng.integers(1, min(3, nq) + 1))
     pool = [LABEL_POOL[i] for i in rng.permutation(len(LABEL_POOL))[:nl]]
-    labels = [pool[int(rng.integers(0, nl))] for _ in range(nq)]
-    return labels
+    return [pool[int(rng.integers(0, nl))] for _ in range(nq)]
 
 
 def rand_obs(rng, nq, k=None):
     k = k or int(rng.integers(1, 3))
-    return PauliList(["".join("IXYZ"[int(rng.integers(0, 4))] for _ in range(nq)) for _ in range(k)])
+    return ["".join("IXYZ"[int(rng.integers(0, 4))] for _ in range(nq)) for _ in range(k)]
 
 
 def spans_of(qc, labels):
@@ -501,6 +531,10 @@ def sides_of(qc, labels):
         b = li(labels[qs[1]]) if len(qs) >= 2 and inst.operation.name != "barrier" else a
         out.append((a, b))
     return out, len(li.d)
+
+
+def two_q_plain_ids(qc):
+    return [k for k, i in enumerate(qc.data) if len(i.qubits) == 2 and i.operation.name in CUTTABLE]
 
 
 # ----------------------------------------------------------------------------------------------
@@ -580,7 +614,9 @@ def classify(entry, rec, circs):
 
 
 def monitor_ocopy(w, qc):
-    """O-copy: QuantumCircuit.copy() -> new circuit, new operation objects with equal attribute values sharing `basis`."""
+    """O-copy: QuantumCircuit.copy() -> new circuit; every Python-defined instruction (QPD gates, CutWire) becomes a NEW
+    object with equal attribute values sharing `basis`; a standard gate that was appended as a Python object is either
+    re-materialised natively (no stable object) or a new object."""
     c2 = qc.copy()
     ok = c2 is not qc and len(c2.data) == len(qc.data)
     for k in range(len(qc.data)):
@@ -588,58 +624,175 @@ def monitor_ocopy(w, qc):
         if a is None:
             continue
         b = stable_op(c2, k)
-        if b is None or b is a or type(a) is not type(b) or a.label != b.label or b._params is a._params:
+        if b is None:
+            if isinstance(a, (BaseQPDGate, CutWire)):
+                ok = False
+            continue
+        if b is a or type(a) is not type(b) or a.label != b.label or b._params is a._params:
             ok = False
         elif isinstance(a, BaseQPDGate) and (b.basis is not a.basis or b.basis_id != a.basis_id):
             ok = False
     w.contract("O-copy: QuantumCircuit.copy() makes new operation objects with equal attributes sharing `basis`", ok)
 
 
+def untag_label(t):
+    from common import untag
+    return untag(t)
+
+
+def run_entry(entry, inplace, d, w=None):
+    """Build the inputs from the description `d`, run the protocol; returns (hb, call literal, record, circuits)."""
+    hb = HeapBuilder()
+    if entry == "pcq":
+        qc = build_circuit(d["circuit"])
+        labels = [untag_label(t) for t in d["labels"]]
+        if w is not None and not inplace:
+            monitor_ocopy(w, qc)
+        c = hb.circuit(qc)
+        lit = f"CPcq {coq(inplace)} {c} {coq(spans_of(qc, labels))}"
+        rec, _ = examine([qc, labels], lambda a: partition_circuit_qubits(a[0], a[1], inplace=inplace), lambda o: [o], inplace)
+        return hb, lit, rec, [qc]
+    if entry == "cut_gates":
+        qc = build_circuit(d["circuit"])
+        gids = list(d["gate_ids"])
+        c = hb.circuit(qc)
+        lit = f"CCutGates {coq(inplace)} {c} {coq(gids)}"
+        rec, _ = examine([qc, gids], lambda a: cut_gates(a[0], a[1], inplace=inplace), lambda o: [o[0], o[1]], inplace)
+        return hb, lit, rec, [qc]
+    if entry == "partition_problem":
+        qc = build_circuit(d["circuit"])
+        labels = [untag_label(t) for t in d["labels"]]
+        obs = PauliList(d["obs"]) if d.get("obs") else None
+        c = hb.circuit(qc)
+        p = hb.pauli(obs) if obs is not None else None
+        sides, nl = sides_of(qc, labels)
+        lit = f"CPartition {c} {coq(spans_of(qc, labels))} {coq(sides)} {nl} {copt(p)}"
+        rec, _ = examine([qc, labels, obs], lambda a: partition_problem(a[0], a[1], a[2]),
+                         lambda o: [o.subcircuits, o.bases] + ([o.subobservables] if o.subobservables is not None else []), False)
+        return hb, lit, rec, [qc]
+    if entry == "cut_wires":
+        qc = build_circuit(d["circuit"])
+        c = hb.circuit(qc)
+        rec, _ = examine([qc], lambda a: cut_wires(a[0]), lambda o: [o], False)
+        return hb, f"CCutWires {c}", rec, [qc]
+    if entry == "expand":
+        qc = build_circuit(d["circuit"])
+        fc = cut_wires(qc)
+        obs = PauliList(d["obs"])
+        p = hb.pauli(obs)
+        c1 = hb.circuit(qc)
+        c2 = hb.circuit(fc)
+        rec, _ = examine([obs, qc, fc], lambda a: expand_observables(a[0], a[1], a[2]), lambda o: [o], False)
+        return hb, f"CExpand {p} {c1} {c2}", rec, [qc, fc]
+    if entry == "find_cuts":
+        qc = build_circuit(d["circuit"])
+        opt = OptimizationParameters(seed=d["seed"], gate_lo=True, wire_lo=d["wire_lo"])
+        con = DeviceConstraints(qubits_per_subcircuit=d["width"])
+        _out0, meta0 = find_cuts(qc, opt, con)
+        wires = sorted(i for t, i in meta0["cuts"] if t == "Wire Cut")
+        gouts = [i for t, i in meta0["cuts"] if t == "Gate Cut"]
+        gids = [i - sum(1 for x in wires if x < i) for i in gouts]
+        # metadata lists every qpd_2q of the output; the gates cut by THIS call are those that were not QPD gates before
+        gids = [i for i in gids if not isinstance(qc.data[i].operation, BaseQPDGate)]
+        c = hb.circuit(qc)
+        rec, _ = examine([qc, opt, con], lambda a: find_cuts(a[0], a[1], a[2]), lambda o: [o[0], o[1]], False)
+        return hb, f"CFindCuts {c} {coq(gids)} {coq(wires)}", rec, [qc]
+    if entry == "dqi":
+        qc = build_circuit(d["circuit"])
+        qids, mids = list(d["ids"]), list(d["map_ids"])
+        c = hb.circuit(qc)
+        lit = f"CDqi {coq(inplace)} {c} {coq(qids)} {coq(mids)}"
+        rec, _ = examine([qc, [[k] for k in qids], mids],
+                         lambda a: decompose_qpd_instructions(a[0], a[1], a[2], inplace=inplace), lambda o: [o], inplace)
+        return hb, lit, rec, [qc]
+    if entry == "generate":
+        qc0 = build_circuit(d["circuit"])
+        obs = PauliList(d["obs"])
+        if d["form"] == "dict":
+            labels = [untag_label(t) for t in d["labels"]]
+            pp = partition_problem(qc0, labels, obs)
+            circs, sobs, bases = pp.subcircuits, pp.subobservables, pp.bases
+            clist = list(circs.values())
+            cl = [hb.circuit(x) for x in clist]
+            ol = [hb.pauli(sobs[k]) for k in circs]
+            ng = [len(ObservableCollection(sobs[k]).groups) for k in circs]
+            cutidx = [[int(i.operation.label.split("_")[-1]) for i in x.data if isinstance(i.operation, SingleQubitQPDGate)]
+                      for x in clist]
+        else:
+            circs, bases = cut_gates(qc0, two_q_plain_ids(qc0))
+            sobs = obs
+            clist = [circs]
+            cl = [hb.circuit(circs)]
+            ol = [hb.pauli(sobs)]
+            ng = [len(ObservableCollection(sobs).groups)]
+            cutidx = [list(range(len(bases)))]
+        nmaps = [len(b.maps) for b in bases]
+        # exact mode keeps a joint map iff the product of its probabilities is >= 1e-14 (qpd/weights.py; C04's business,
+        # monitored below through the number of returned coefficients)
+        samples = [list(t) for t in itertools.product(*[range(n) for n in nmaps])
+                   if float(np.prod([b.probabilities[j] for b, j in zip(bases, t)])) >= 1e-14]
+        lit = f"CGenerate {coq(cl)} {coq(ol)} {coq(samples)} {coq(ng)} {coq(cutidx)}"
+        rec, out1 = examine([circs, sobs], lambda a: generate_cutting_experiments(a[0], a[1], np.inf), lambda o: [o[0], o[1]], False)
+        if w is not None:
+            w.contract("O-weights: num_samples=inf yields one coefficient per joint map id of probability >= 1e-14", len(out1[1]) == len(samples))
+        return hb, lit, rec, clist
+    if entry == "reconstruct":
+        qc0 = build_circuit(d["circuit"])
+        obs = PauliList(d["obs"])
+        pp = partition_problem(qc0, "AB", obs)
+        exps, coeffs = generate_cutting_experiments(pp.subcircuits, pp.subobservables, np.inf)
+        results = {k: ExactSampler().run(v).result() for k, v in exps.items()}
+        rs = [hb.result(results[k]) for k in results]
+        co = hb.plain_list(coeffs)
+        ol = [hb.pauli(pp.subobservables[k]) for k in results]
+        rec, _ = examine([results, coeffs, pp.subobservables], lambda a: reconstruct_expectation_values(a[0], a[1], a[2]),
+                         lambda o: [o], False)
+        return hb, f"CReconstruct {coq(rs)} {co} {coq(ol)}", rec, []
+    raise ValueError(entry)
+
+
+def record_json(entry, inplace, d, lit, rec, cls, tag):
+    return dict(entry=entry, inplace=inplace, known_class=tag, detected_class=cls, desc=d, call=lit,
+                changed=rec["changed"], io=rec["io"], oo=rec["oo"],
+                io_roots=[[k, getattr(o, "name", type(o).__name__)] for k, o in rec["io_roots"]][:12],
+                oo_roots=[[k, getattr(o, "name", type(o).__name__)] for k, o in rec["oo_roots"]][:12],
+                edits=rec["edits"], edit_hits_inputs=rec["edit_hits_inputs"], edit_hits_earlier=rec["edit_hits_earlier"],
+                later_call_changed=rec["later_call_changed"], later_call_error=rec["later_call_error"],
+                result_is_arg=rec.get("result_is_arg"), kinds=KINDS)
+
+
 class Gen:
     def __init__(self, w, known):
         self.w = w
         self.known = known
-        self.n = 0
 
-    def emit(self, entry, hb, call_lit, rec, circs, desc, inplace=False, nontrivial=True):
+    def case(self, entry, d, inplace=False):
+        w = self.w
+        try:
+            hb, lit, rec, circs = run_entry(entry, inplace, d, w)
+        except Refusal:
+            w.count("refused", entry)
+            return
+        except Exception as e:  # noqa: BLE001  (set-up of the case failed, e.g. find_cuts on an unsupported circuit)
+            w.count("setup_failed", f"{entry}:{type(e).__name__}")
+            return
         cls = classify(entry, rec, circs)
         tag = cls if (cls in self.known) else None
-        group = entry + ("_inplace" if inplace else "") + (f"__known_{tag}" if tag else "")
+        name = entry + ("_inplace" if inplace else "")
+        group = name + (f"__known_{tag}" if tag else "")
         checker = "chk_cur" if tag else "chk_rep"
-        exp = (bool(rec["changed"]), rec["io"], rec["oo"])
-        coq_case = (hb.heap(), Raw(call_lit), exp)
-        js = dict(entry=entry, inplace=inplace, known_class=tag, detected_class=cls, desc=desc, call=call_lit,
-                  changed=rec["changed"], io=rec["io"], oo=rec["oo"],
-                  io_roots=[[k, getattr(o, "name", type(o).__name__)] for k, o in rec["io_roots"]][:12],
-                  oo_roots=[[k, getattr(o, "name", type(o).__name__)] for k, o in rec["oo_roots"]][:12],
-                  edits=rec["edits"], edit_hits_inputs=rec["edit_hits_inputs"], edit_hits_earlier=rec["edit_hits_earlier"],
-                  later_call_changed=rec["later_call_changed"], later_call_error=rec["later_call_error"],
-                  result_is_arg=rec.get("result_is_arg"), kinds=KINDS)
-        self.w.add(group, checker, coq_case, js, nontrivial=nontrivial)
-        self.w.count("entry", entry + ("_inplace" if inplace else ""))
-        self.w.count("class", cls or "none")
-        self.w.count("heap_size", min(len(hb.objs) // 10 * 10, 200))
-        # the edits may only have an effect through an alias
-        no_alias = not rec["io_roots"] and not rec["oo_roots"]
+        coq_case = (hb.heap(), Raw("(" + lit + ")"), (bool(rec["changed"]), rec["io"], rec["oo"]))
+        w.add(group, checker, coq_case, record_json(entry, inplace, d, lit, rec, cls, tag),
+              nontrivial=(len(hb.objs) > 2))
+        w.count("entry", name)
+        w.count("class", cls or "none")
+        w.count("heap_objects", f"{len(hb.objs) // 20 * 20}+")
         if not inplace:
-            self.w.contract("no alias => destructive edits of a result have no effect",
-                            (not no_alias) or not (rec["edit_hits_inputs"] or rec["edit_hits_earlier"] or rec["later_call_changed"]))
-        self.n += 1
-
-
-def desc_circuit(qc):
-    return [[i.operation.name, [qc.find_bit(q).index for q in i.qubits],
-             [float(p) if not isinstance(p, np.ndarray) else "nd" for p in i.operation.params],
-             (stable_op(qc, k) is not None)] for k, i in enumerate(qc.data)]
-
-
-def build_pre_circuit(d):
-    """rebuild a circuit from desc (for rerun / witness): pre-placed QPD gates from their source names."""
-    raise NotImplementedError
-
-
-def two_q_plain_ids(qc):
-    return [k for k, i in enumerate(qc.data) if len(i.qubits) == 2 and i.operation.name in ("cx", "rzz", "swap", "cz", "rzx")]
+            no_alias = not rec["io_roots"] and not rec["oo_roots"]
+            w.contract("no alias => destructive edits of a result have no effect",
+                       (not no_alias) or not (rec["edit_hits_inputs"] or rec["edit_hits_earlier"] or rec["later_call_changed"]))
+        else:
+            w.contract("an in-place call returns its circuit argument", bool(rec.get("result_is_arg")))
 
 
 def generate(rng, tier, outdir):
@@ -647,276 +800,109 @@ def generate(rng, tier, outdir):
     known = known_classes()
     g = Gen(w, known)
     quick = tier == "quick"
-    N = dict(pcq=40, cut_gates=40, partition=50, cut_wires=40, expand=25, find_cuts=25, generate=30, dqi=30, reconstruct=10,
+    N = dict(pcq=40, cut_gates=40, partition=50, cut_wires=40, expand=20, find_cuts=24, generate=24, dqi=30, reconstruct=6,
              inplace=36) if quick else \
-        dict(pcq=400, cut_gates=400, partition=500, cut_wires=400, expand=150, find_cuts=200, generate=250, dqi=300,
-             reconstruct=60, inplace=300)
+        dict(pcq=400, cut_gates=400, partition=500, cut_wires=400, expand=150, find_cuts=200, generate=200, dqi=300,
+             reconstruct=40, inplace=300)
     w.notes.append("known classes routed to the current-behaviour checker: " + (",".join(sorted(known)) or "none"))
 
-    # ---------------- partition_circuit_qubits / cut_gates (not in place) ----------------
+    def tl(labels):
+        return [tagged(l) for l in labels]
+
     for it in range(N["pcq"]):
         nq = int(rng.integers(2, 5))
-        qc = rand_circuit(rng, nq, int(rng.integers(1, 7)), p_pre=0.3 if it % 3 else 0.0)
-        labels = rand_labels(rng, nq)
-        monitor_ocopy(w, qc)
-        hb = HeapBuilder()
-        c = hb.circuit(qc)
-        spans = spans_of(qc, labels)
-        lit = f"CPcq false {c} {coq(spans)}"
-        try:
-            rec, _ = examine([qc, labels], lambda a: partition_circuit_qubits(a[0], a[1]), lambda o: [o], False)
-        except Refusal:
-            w.count("refused", "pcq")
-            continue
-        g.emit("pcq", hb, lit, rec, [qc], dict(circuit=desc_circuit(qc), labels=[tagged(l) for l in labels]))
+        cd = rand_desc(rng, nq, int(rng.integers(1, 7)), p_pre=0.3 if it % 3 else 0.0)
+        g.case("pcq", dict(circuit=cd, labels=tl(rand_labels(rng, nq))))
 
     for it in range(N["cut_gates"]):
         nq = int(rng.integers(2, 5))
-        qc = rand_circuit(rng, nq, int(rng.integers(1, 7)), p_pre=0.3 if it % 3 else 0.0, barriers=False)
-        ids = two_q_plain_ids(qc)
+        cd = rand_desc(rng, nq, int(rng.integers(1, 7)), p_pre=0.3 if it % 3 else 0.0, barriers=False)
+        ids = two_q_plain_ids(build_circuit(cd))
         k = int(rng.integers(0, min(3, len(ids)) + 1))
-        gids = [int(x) for x in rng.permutation(ids)[:k]] if ids else []
-        hb = HeapBuilder()
-        c = hb.circuit(qc)
-        lit = f"CCutGates false {c} {coq(gids)}"
-        try:
-            rec, _ = examine([qc, gids], lambda a: cut_gates(a[0], a[1]), lambda o: [o[0], o[1]], False)
-        except Refusal:
-            w.count("refused", "cut_gates")
-            continue
-        g.emit("cut_gates", hb, lit, rec, [qc], dict(circuit=desc_circuit(qc), gate_ids=gids))
+        g.case("cut_gates", dict(circuit=cd, gate_ids=[int(x) for x in rng.permutation(ids)[:k]] if ids else []))
 
-    # ---------------- partition_problem ----------------
     for it in range(N["partition"]):
         nq = int(rng.integers(2, 5))
-        qc = rand_circuit(rng, nq, int(rng.integers(1, 7)), p_pre=0.35 if it % 3 else 0.0, barriers=False)
-        labels = rand_labels(rng, nq)
-        obs = rand_obs(rng, nq) if rng.random() < 0.6 else None
-        hb = HeapBuilder()
-        c = hb.circuit(qc)
-        p = hb.pauli(obs) if obs is not None else None
-        sides, nl = sides_of(qc, labels)
-        spans = spans_of(qc, labels)
-        lit = f"CPartition {c} {coq(spans)} {coq(sides)} {nl} {copt(p)}"
-        try:
-            rec, _ = examine([qc, labels, obs], lambda a: partition_problem(a[0], a[1], a[2]),
-                             lambda o: [o.subcircuits, o.bases] + ([o.subobservables] if o.subobservables is not None else []), False)
-        except Refusal:
-            w.count("refused", "partition_problem")
-            continue
-        g.emit("partition_problem", hb, lit, rec, [qc],
-               dict(circuit=desc_circuit(qc), labels=[tagged(l) for l in labels], obs=(obs.to_labels() if obs is not None else None)))
+        cd = rand_desc(rng, nq, int(rng.integers(1, 7)), p_pre=0.35 if it % 3 else 0.0)
+        g.case("partition_problem", dict(circuit=cd, labels=tl(rand_labels(rng, nq)),
+                                         obs=rand_obs(rng, nq) if rng.random() < 0.6 else None))
 
-    # ---------------- cut_wires / expand_observables ----------------
     for it in range(N["cut_wires"]):
         nq = int(rng.integers(2, 5))
-        qc = rand_circuit(rng, nq, int(rng.integers(1, 6)), p_pre=0.25 if it % 3 else 0.0, p_py=0.25 if it % 2 else 0.0,
-                          p_cw=0.35, barriers=False)
-        hb = HeapBuilder()
-        c = hb.circuit(qc)
-        lit = f"CCutWires {c}"
-        try:
-            rec, _ = examine([qc], lambda a: cut_wires(a[0]), lambda o: [o], False)
-        except Refusal:
-            w.count("refused", "cut_wires")
-            continue
-        g.emit("cut_wires", hb, lit, rec, [qc], dict(circuit=desc_circuit(qc)))
+        cd = rand_desc(rng, nq, int(rng.integers(1, 6)), p_pre=0.25 if it % 3 else 0.0, p_py=0.25 if it % 2 else 0.0,
+                       p_cw=0.35, barriers=False)
+        g.case("cut_wires", dict(circuit=cd))
 
     for it in range(N["expand"]):
         nq = int(rng.integers(2, 5))
-        qc = rand_circuit(rng, nq, int(rng.integers(1, 5)), p_pre=0.0, p_cw=0.4, barriers=False)
-        try:
-            fc = cut_wires(qc)
-        except Exception:  # noqa: BLE001
-            continue
-        obs = rand_obs(rng, nq)
-        hb = HeapBuilder()
-        p = hb.pauli(obs)
-        c1 = hb.circuit(qc)
-        c2 = hb.circuit(fc)
-        lit = f"CExpand {p} {c1} {c2}"
-        try:
-            rec, _ = examine([obs, qc, fc], lambda a: expand_observables(a[0], a[1], a[2]), lambda o: [o], False)
-        except Refusal:
-            w.count("refused", "expand")
-            continue
-        g.emit("expand", hb, lit, rec, [qc, fc], dict(circuit=desc_circuit(qc), obs=obs.to_labels()))
+        cd = rand_desc(rng, nq, int(rng.integers(1, 5)), p_pre=0.0, p_cw=0.4, barriers=False)
+        g.case("expand", dict(circuit=cd, obs=rand_obs(rng, nq)))
 
-    # ---------------- find_cuts ----------------
     for it in range(N["find_cuts"]):
         nq = int(rng.integers(3, 5))
-        qc = rand_circuit(rng, nq, int(rng.integers(2, 6)), p_pre=0.0, p_py=0.25, barriers=False)
-        opt = OptimizationParameters(seed=int(rng.integers(0, 1000)), gate_lo=True, wire_lo=bool(rng.integers(0, 2)))
-        con = DeviceConstraints(qubits_per_subcircuit=int(rng.integers(2, nq)))
-        try:
-            out0, meta0 = find_cuts(qc, opt, con)
-        except Exception as e:  # noqa: BLE001
-            w.count("refused", "find_cuts:" + type(e).__name__)
-            continue
-        wires = sorted(i for t, i in meta0["cuts"] if t == "Wire Cut")
-        gouts = [i for t, i in meta0["cuts"] if t == "Gate Cut"]
-        gids = [i - sum(1 for x in wires if x < i) for i in gouts]
-        hb = HeapBuilder()
-        c = hb.circuit(qc)
-        lit = f"CFindCuts {c} {coq(gids)} {coq(wires)}"
-        rec, _ = examine([qc, opt, con], lambda a: find_cuts(a[0], a[1], a[2]), lambda o: [o[0], o[1]], False)
-        g.emit("find_cuts", hb, lit, rec, [qc], dict(circuit=desc_circuit(qc), seed=opt.seed, wire_lo=opt.wire_lo,
-                                                     width=con.qubits_per_subcircuit))
+        cd = rand_desc(rng, nq, int(rng.integers(2, 6)), p_pre=0.2 if it % 2 else 0.0, p_py=0.25, barriers=False, srcs=SMALL_SRC)
+        g.case("find_cuts", dict(circuit=cd, seed=int(rng.integers(0, 1000)), wire_lo=bool(rng.integers(0, 2)),
+                                 width=int(rng.integers(2, nq))))
 
-    # ---------------- decompose_qpd_instructions (not in place) ----------------
     for it in range(N["dqi"]):
         nq = int(rng.integers(2, 4))
-        qc = rand_circuit(rng, nq, int(rng.integers(1, 5)), p_pre=0.5, p_py=0.15, barriers=False)
+        cd = rand_desc(rng, nq, int(rng.integers(1, 5)), p_pre=0.5, p_py=0.15, barriers=False)
+        qc = build_circuit(cd)
         qids = [k for k, i in enumerate(qc.data) if isinstance(i.operation, BaseQPDGate)]
         if not qids and it % 4:
             continue
         mids = [int(rng.integers(0, len(qc.data[k].operation.basis.maps))) for k in qids]
-        hb = HeapBuilder()
-        c = hb.circuit(qc)
-        lit = f"CDqi false {c} {coq(qids)} {coq(mids)}"
-        try:
-            rec, _ = examine([qc, [[k] for k in qids], mids], lambda a: decompose_qpd_instructions(a[0], a[1], a[2]), lambda o: [o], False)
-        except Refusal:
-            w.count("refused", "dqi")
-            continue
-        g.emit("dqi", hb, lit, rec, [qc], dict(circuit=desc_circuit(qc), ids=qids, map_ids=mids))
+        g.case("dqi", dict(circuit=cd, ids=qids, map_ids=mids))
 
-    # ---------------- generate_cutting_experiments ----------------
     for it in range(N["generate"]):
         nq = int(rng.integers(2, 4))
         form = "dict" if it % 2 == 0 else "circuit"
-        big = (it % 5 == 0)
-        qc0 = QuantumCircuit(nq)
-        # at most one big (58-map) basis, or up to two 6/8-map bases: the exact enumeration stays small
-        ncuts = 1 if big else int(rng.integers(1, 3))
-        for _ in range(int(rng.integers(0, 3))):
-            qc0.h(int(rng.integers(0, nq)))
-        for j in range(ncuts):
-            a, b = (int(x) for x in rng.permutation(nq)[:2])
-            if big:
-                [lambda: qc0.swap(a, b), lambda: qc0.append(RZXGate(0.25), [a, b]), lambda: qc0.append(RYYGate(0.5), [a, b]),
-                 lambda: qc0.append(CRXGate(0.5), [a, b])][int(rng.integers(0, 4))]()
-            else:
-                [lambda: qc0.cx(a, b), lambda: qc0.rzz(0.375, a, b), lambda: qc0.cz(a, b)][int(rng.integers(0, 3))]()
+        big = (it % 3 == 0)
+        ops = [dict(g="h", q=[int(rng.integers(0, nq))]) for _ in range(int(rng.integers(0, 3)))]
+        for j in range(1 if big else int(rng.integers(1, 3))):
+            # the dict form cuts gates between even and odd qubits (labels A/B); the circuit form cuts every listed gate
+            a = int(rng.integers(0, nq))
+            b = (a + 1) % nq if form == "dict" else int([x for x in range(nq) if x != a][int(rng.integers(0, nq - 1))])
+            if form == "dict" and (a % 2) == (b % 2):
+                a, b = 0, 1
+            name = BIG_SRC[int(rng.integers(0, len(BIG_SRC)))] if big else SMALL_SRC[int(rng.integers(0, len(SMALL_SRC)))]
+            ops.append(dict(g=name, q=[a, b], p=_params_for(name, rng), py=name in ("rzx", "ryy", "crx")))
             if rng.random() < 0.5:
-                qc0.rx(0.25, a)
-        obs = rand_obs(rng, nq)
-        try:
-            if form == "dict":
-                labels = ["A" if q % 2 == 0 else "B" for q in range(nq)]
-                ids = [k for k, i in enumerate(qc0.data) if len(i.qubits) == 2 and labels[qc0.find_bit(i.qubits[0]).index] != labels[qc0.find_bit(i.qubits[1]).index]]
-                if not ids:
-                    continue
-                pp = partition_problem(qc0, labels, obs)
-                circs = pp.subcircuits
-                sobs = pp.subobservables
-                bases = pp.bases
-            else:
-                ids = two_q_plain_ids(qc0)
-                circs, bases = cut_gates(qc0, ids)
-                sobs = obs
-        except Exception as e:  # noqa: BLE001
-            w.count("refused", "generate-setup:" + type(e).__name__)
-            continue
-        nmaps = [len(b.maps) for b in bases]
-        if int(np.prod(nmaps or [1])) > 70:
-            continue
-        samples = [list(t) for t in itertools.product(*[range(n) for n in nmaps])]
-        hb = HeapBuilder()
-        if form == "dict":
-            clist = list(circs.values())
-            cl = [hb.circuit(x) for x in clist]
-            ol = [hb.pauli(sobs[k]) for k in circs]
-            ng = [len(ObservableCollection(sobs[k]).groups) for k in circs]
-            cutidx = [[int(i.operation.label.split("_")[-1]) for i in x.data if isinstance(i.operation, SingleQubitQPDGate)] for x in clist]
-        else:
-            clist = [circs]
-            cl = [hb.circuit(circs)]
-            ol = [hb.pauli(sobs)]
-            ng = [len(ObservableCollection(sobs).groups)]
-            cutidx = [list(range(len(bases)))]
-        lit = f"CGenerate {coq(cl)} {coq(ol)} {coq(samples)} {coq(ng)} {coq(cutidx)}"
-        try:
-            rec, out1 = examine([circs, sobs], lambda a: generate_cutting_experiments(a[0], a[1], np.inf),
-                                lambda o: [o[0], o[1]], False)
-        except Refusal:
-            w.count("refused", "generate")
-            continue
-        w.contract("O-weights: num_samples=inf enumerates every joint map id (one coefficient each)", len(out1[1]) == len(samples))
-        g.emit("generate", hb, lit, rec, clist, dict(circuit=desc_circuit(qc0), form=form, obs=obs.to_labels(), nmaps=nmaps))
+                ops.append(dict(g="rx", q=[a], p=[0.25]))
+        g.case("generate", dict(circuit=dict(nq=nq, ops=ops), form=form, obs=rand_obs(rng, nq),
+                                labels=tl(["A" if q % 2 == 0 else "B" for q in range(nq)])))
         w.count("generate.form", form)
 
-    # ---------------- reconstruct_expectation_values ----------------
     for it in range(N["reconstruct"]):
-        nq = 2
-        qc0 = QuantumCircuit(nq)
-        qc0.h(0)
-        [lambda: qc0.cx(0, 1), lambda: qc0.rzz(0.375, 0, 1), lambda: qc0.cz(0, 1)][int(rng.integers(0, 3))]()
-        obs = rand_obs(rng, nq)
-        try:
-            pp = partition_problem(qc0, "AB", obs)
-            exps, coeffs = generate_cutting_experiments(pp.subcircuits, pp.subobservables, np.inf)
-            results = {k: ExactSampler().run(v).result() for k, v in exps.items()}
-        except Exception as e:  # noqa: BLE001
-            w.count("refused", "reconstruct-setup:" + type(e).__name__)
-            continue
-        hb = HeapBuilder()
-        rs = [hb.result(results[k]) for k in results]
-        co = hb.plain_list(coeffs)
-        ol = [hb.pauli(pp.subobservables[k]) for k in results]
-        lit = f"CReconstruct {coq(rs)} {co} {coq(ol)}"
-        rec, _ = examine([results, coeffs, pp.subobservables], lambda a: reconstruct_expectation_values(a[0], a[1], a[2]),
-                         lambda o: [o], False)
-        g.emit("reconstruct", hb, lit, rec, [], dict(circuit=desc_circuit(qc0), obs=obs.to_labels()))
+        name = SMALL_SRC[int(rng.integers(0, 3))]
+        ops = [dict(g="h", q=[0]), dict(g=name, q=[0, 1], p=_params_for(name, rng))]
+        g.case("reconstruct", dict(circuit=dict(nq=2, ops=ops), obs=rand_obs(rng, 2)))
 
-    # ---------------- the in-place forms ----------------
     for it in range(N["inplace"]):
         nq = int(rng.integers(2, 5))
         which = it % 3
         if which == 0:
-            qc = rand_circuit(rng, nq, int(rng.integers(1, 6)), p_pre=0.25)
-            labels = rand_labels(rng, nq)
-            hb = HeapBuilder()
-            c = hb.circuit(qc)
-            lit = f"CPcq true {c} {coq(spans_of(qc, labels))}"
-            try:
-                rec, _ = examine([qc, labels], lambda a: partition_circuit_qubits(a[0], a[1], inplace=True), lambda o: [o], True)
-            except Refusal:
-                continue
-            g.emit("pcq", hb, lit, rec, [qc], dict(circuit="(modified in place)", labels=[tagged(l) for l in labels]), inplace=True)
+            cd = rand_desc(rng, nq, int(rng.integers(1, 6)), p_pre=0.25)
+            g.case("pcq", dict(circuit=cd, labels=tl(rand_labels(rng, nq))), inplace=True)
         elif which == 1:
-            qc = rand_circuit(rng, nq, int(rng.integers(1, 6)), p_pre=0.25, barriers=False)
-            ids = two_q_plain_ids(qc)
+            cd = rand_desc(rng, nq, int(rng.integers(1, 6)), p_pre=0.25, barriers=False)
+            ids = two_q_plain_ids(build_circuit(cd))
             gids = [int(x) for x in rng.permutation(ids)[:int(rng.integers(0, 3))]] if ids else []
-            hb = HeapBuilder()
-            c = hb.circuit(qc)
-            lit = f"CCutGates true {c} {coq(gids)}"
-            try:
-                rec, _ = examine([qc, gids], lambda a: cut_gates(a[0], a[1], inplace=True), lambda o: [o[0], o[1]], True)
-            except Refusal:
-                continue
-            g.emit("cut_gates", hb, lit, rec, [qc], dict(circuit="(modified in place)", gate_ids=gids), inplace=True)
+            g.case("cut_gates", dict(circuit=cd, gate_ids=gids), inplace=True)
         else:
-            qc = rand_circuit(rng, min(nq, 3), int(rng.integers(1, 5)), p_pre=0.5, barriers=False)
+            cd = rand_desc(rng, min(nq, 3), int(rng.integers(1, 5)), p_pre=0.5, barriers=False)
+            qc = build_circuit(cd)
             qids = [k for k, i in enumerate(qc.data) if isinstance(i.operation, BaseQPDGate)]
             mids = [int(rng.integers(0, len(qc.data[k].operation.basis.maps))) for k in qids]
-            hb = HeapBuilder()
-            c = hb.circuit(qc)
-            lit = f"CDqi true {c} {coq(qids)} {coq(mids)}"
-            try:
-                rec, _ = examine([qc, [[k] for k in qids], mids], lambda a: decompose_qpd_instructions(a[0], a[1], a[2], inplace=True),
-                                 lambda o: [o], True)
-            except Refusal:
-                continue
-            g.emit("dqi", hb, lit, rec, [qc], dict(circuit="(modified in place)", ids=qids, map_ids=mids), inplace=True)
+            g.case("dqi", dict(circuit=cd, ids=qids, map_ids=mids), inplace=True)
 
     return w.finish(
         rule="random circuits on 2-4 qubits (h/x/s/rx, cx/rzz/swap made natively, rzx/rzz appended as Python gate objects, "
-             "optional pre-placed TwoQubitQPDGate instances incl. two gates sharing one basis, CutWire markers, barriers); "
-             "explicit partition labels from a pool of hashables; random PauliLists; exact (num_samples=inf) generation with at "
-             "most 70 joint maps; ExactSampler results for reconstruction; every call also in its in-place form where one exists. "
-             "UnitaryGate instructions in INPUT circuits are excluded (Qiskit's own copy shares their matrix; reported as an observation). "
-             "distinct = distinct Coq case literal; non-trivial = all",
+             "optional pre-placed TwoQubitQPDGate instances from cx/rzz/cz/swap/rzx/ryy/crx incl. two gates sharing one basis, "
+             "CutWire markers, barriers); explicit partition labels from a pool of hashables; random PauliLists; exact "
+             "(num_samples=inf) generation, both call forms; ExactSampler results for reconstruction; every call also in its "
+             "in-place form where one exists. UnitaryGate instructions in INPUT circuits are excluded (Qiskit's own copy shares "
+             "their matrix; reported as an observation). distinct = distinct Coq case literal; non-trivial = heap with > 2 objects",
         extra=dict(extra=dict(known_classes=sorted(known))),
     )
 
@@ -954,16 +940,18 @@ def judge(case):
 
 
 def rerun(case):
-    """Re-execute the implementation for --replay: the stored case names a sharing class / entry point; the class
-    witnesses are deterministic, so the replay re-runs the witness of the detected class (or reports the stored record)."""
-    cls = case.get("detected_class")
-    if cls in ALL_CLASSES:
-        wv = witness(cls)
-        case["replayed_witness"] = wv
-        if not wv["fails"]:
-            # the class no longer shows: clear the recorded deviation
-            case.update(changed=False, io=[0] * len(KINDS), oo=[0] * len(KINDS), io_roots=[], oo_roots=[],
-                        edit_hits_inputs=False, edit_hits_earlier=False, later_call_changed=False)
+    """Re-execute the implementation on the stored description (for --replay) and refresh the record."""
+    entry, inplace, d = case["entry"], case.get("inplace", False), case["desc"]
+    try:
+        hb, lit, rec, circs = run_entry(entry, inplace, d, None)
+    except Refusal as e:
+        case["replay_note"] = "call refused now: " + str(e)
+        case.update(changed=False, io=[0] * len(KINDS), oo=[0] * len(KINDS), io_roots=[], oo_roots=[],
+                    edit_hits_inputs=False, edit_hits_earlier=False, later_call_changed=False)
+        return case
+    cls = classify(entry, rec, circs)
+    tag = cls if cls in known_classes() else None
+    case.update(record_json(entry, inplace, d, lit, rec, cls, tag))
     return case
 
 
